@@ -8,7 +8,7 @@
    kvs     := [ xkey aval { / xkey aval } ]
    op      := SC t vk s | AO t | AB t | CL k | CR t l | AP r arg | EM t l r | EN t l | EV t l [arg {, arg}]
             | ER t l r [arg {, arg}] | LG t l named form sev id xname addr len kvs | LV t l sev [arg {, arg}]
-            | MU addr buf | AD pkind | NM l *)
+            | MU addr buf | AD pkind | NM l | BU t l n flush [arg {, arg}]       pkind := I | K | B | P | Q1..Q4 *)
 From V Require Export C13.Spec.
 Local Open Scope Z_scope.
 
@@ -150,7 +150,9 @@ Definition parse_args (l : list tok) : option (list arg) :=
 
 Definition parse_pkind (t : tok) : option pkind :=
   if is_tag "I" t then Some PImm else if is_tag "K" t then Some PKeep else if is_tag "B" t then Some PBatch
-  else if is_tag "P" t then Some PProbe else None.
+  else if is_tag "P" t then Some PProbe
+  else if is_tag "Q1" t then Some (PRead 1) else if is_tag "Q2" t then Some (PRead 2)
+  else if is_tag "Q3" t then Some (PRead 3) else if is_tag "Q4" t then Some (PRead 4) else None.
 
 Definition parse_sval (t : tok) (s : nat) : option sval :=
   if is_tag "S" t then Some (SVSpan s) else if is_tag "SN" t then Some SVNullSpan else if is_tag "C" t then Some (SVCtx s)
@@ -210,6 +212,13 @@ Definition parse_op (l : list tok) : option lop :=
         match a with ta :: rest => match parse_nat ta, parse_buf rest with Some ad, Some b => Some (LMut ad b) | _, _ => None end | _ => None end
       else if is_tag "AD" t then match a with [tk] => option_map LAddProc (parse_pkind tk) | _ => None end
       else if is_tag "NM" t then match a with [tl] => option_map LName (parse_nat tl) | _ => None end
+      else if is_tag "BU" t then
+        match a with tth :: tl :: tn :: tf :: rest =>
+          match parse_nat tth, parse_nat tl, parse_nat tn, parse_bool tf, parse_args rest with
+          | Some th, Some lg, Some n, Some fl, Some xs => Some (LBurst th lg n fl xs)
+          | _, _, _, _, _ => None
+          end
+        | _ => None end
       else None
   end.
 
@@ -240,6 +249,11 @@ Fixpoint parse_pkinds (l : list tok) : option (list pkind) :=
 
 Definition nonempty (l : list (list tok)) : list (list tok) := filter (fun x => match x with [] => false | _ => true end) l.
 
+(* a burst that is not flushed is delivered when the provider shuts down: only as the last operation *)
+Definition unflushed (o : lop) : bool := match o with LBurst _ _ _ false _ => true | _ => false end.
+Definition bursts_ok (ops : list lop) : bool :=
+  match rev ops with [] => true | _ :: r => negb (existsb unflushed r) end.
+
 Definition parse_case (l : list tok) : option case :=
   match split_toks ";" l with
   | [tc :: td :: conds; tlg :: lgs; tsp :: sps; [tres; TB marker]; tpr :: prs; thp :: bufs; tops :: ops] =>
@@ -248,7 +262,7 @@ Definition parse_case (l : list tok) : option case :=
         match parse_bool td, parse_conds conds, parse_loggers lgs, parse_spans sps, parse_pkinds prs,
               parse_all parse_buf (nonempty (split_toks "," bufs)), parse_all parse_op (nonempty (split_toks "|" ops)) with
         | Some d, Some cs, Some lg, Some sp, Some pr, Some m, Some os =>
-            Some (mk_case (mk_cfg d cs lg sp marker) m pr os)
+            if bursts_ok os then Some (mk_case (mk_cfg d cs lg sp marker) m pr os) else None
         | _, _, _, _, _, _, _ => None
         end
       else None
@@ -264,7 +278,7 @@ Definition op_tag (o : lop) : string :=
   | LScope _ _ | LAttachOther _ | LAttachBare _ | LClose _ => "x"
   | LCreate _ _ => "c" | LApply _ _ => "a" | LEmit _ _ _ => "e" | LEmitNull _ _ => "n"
   | LEmitV _ _ _ => "v" | LEmitRV _ _ _ _ => "r" | LLog _ _ _ _ _ _ _ _ _ => "g" | LLevel _ _ _ _ => "l"
-  | LMut _ _ => "m" | LAddProc _ => "p" | LName _ => "q"
+  | LMut _ _ => "m" | LAddProc _ => "p" | LName _ => "q" | LBurst _ _ _ _ _ => "b"
   end.
 Definition has_op (s : string) (ops : list lop) : bool := existsb (fun o => String.eqb (op_tag o) s) ops.
 Definition run_tag (l : list tok) : list tok :=
@@ -279,6 +293,7 @@ Definition run_tag (l : list tok) : list tok :=
           [tag ((if has_op "m" ops then "mut_" else "nomut_") ++
                 (if has_op "v" ops || has_op "g" ops || has_op "l" ops then "variadic_" else "") ++
                 (if has_op "e" ops || has_op "r" ops then "stepwise_" else "") ++
+                (if has_op "b" ops then "burst_" else "") ++
                 (if has_op "x" ops then "spans_" else "nospans_") ++
                 (match spec with [] => "clean" | _ => "f15" end))%string]
       end
